@@ -183,6 +183,17 @@ def o_stability(c):
     eps = 1e-9
     if not (abs(float(psi(eps))) <= 1e-8 and abs(float(psi(-eps))) <= 1e-8 and abs(float(phi(eps)) - 1) <= 1e-8 and abs(float(phi(-eps)) - 1) <= 1e-8):
         return fail("C09/neutral-continuity", "psi/phi are not continuous through neutral stratification", None, [0, 1], [float(psi(-eps)), float(phi(-eps))], 1e-8)
+    # the documented argument is "float or numpy.ndarray": an array holding stable AND unstable values (a z/L series, a
+    # sweep through neutral) must give, element by element, what the scalar calls give
+    others = c.get("others")
+    if others:
+        arr = np.array([x] + list(others), dtype=float)
+        for fn, name in ((psi, "psi"), (phi, "phi")):
+            whole = np.asarray(fn(arr), dtype=float)
+            single = np.array([float(fn(float(v))) for v in arr])
+            if whole.shape != arr.shape or not np.allclose(whole, single, rtol=1e-13, atol=1e-15):
+                return fail("C09/array-vs-scalar/%s" % name, "%s of an array differs from %s of its elements (mixed stable / unstable values)" % (name, name),
+                            None, [float(v) for v in single], [float(v) for v in whole.ravel()], 1e-13)
     zm, L = c["zm"], c["zm"] / x
     a = float(km._psiM(np.asarray([zm]), np.asarray([L]))[0])
     b = float(km._phiC(np.asarray([zm]), np.asarray([L]))[0])
@@ -225,8 +236,11 @@ def run(rng, tier, deep):
     for _ in range(budget(tier, deep, 150, 2000)):
         run_oracle(st, o_profiles, gen_case(rng))
     for _ in range(budget(tier, deep, 60, 800)):
-        run_oracle(st, o_stability, dict(x=float(rng.choice([rng.uniform(-40, -1e-3), rng.uniform(1e-3, 15)])), zm=float(rng.uniform(1, 40))))
+        others = [float(v) for v in rng.choice([rng.uniform(-40, -1e-3), rng.uniform(1e-3, 15), 0.0], size=int(rng.integers(1, 5)))] if rng.random() < 0.5 else None
+        if others:
+            others = [float(rng.uniform(-30, 10)) for _ in others]
+        run_oracle(st, o_stability, dict(x=float(rng.choice([rng.uniform(-40, -1e-3), rng.uniform(1e-3, 15)])), zm=float(rng.uniform(1, 40)), others=others))
     return finish(st, "closures MOST/MOSTM/CONSTANT/OAAHOC x ustar/z0 forcing x stability of both signs up to neutral x 1..40 layers x Prandtl numbers x "
                   "default and user-chosen stretch/domain height (inside the valid range) + a malformed stream (bad closure, both/neither of z0, ustar); "
                   "correspondence of psi, phi and the whole vertical_profiles output incl. the grid length (5e-9; worst gap observed on the clean tree 2e-11, from log cancellation); oracle: grid/wind/K identities, "
-                  "z0<->ustar round trip, psi vs quad of (phi_M-1)/x, continuity at neutral, agreement with the KM module's copies", deep, 5e-9)
+                  "z0<->ustar round trip, psi vs quad of (phi_M-1)/x, continuity at neutral, array arguments mixing stable and unstable values vs element-wise calls, agreement with the KM module's copies", deep, 5e-9)
